@@ -94,6 +94,9 @@ func RunTape(t *testing.T, p Prop, tape *sim.Tape) (res *Result) {
 			p.Run(t, s, res)
 		}()
 		res.Violations = s.Violations
+		if res.Trouble == "" {
+			res.Trouble = s.Trouble
+		}
 		res.TraceHash = s.TraceHash()
 		res.Steps = s.Step
 		res.Interleave = s.Interleave
